@@ -1035,6 +1035,7 @@ func (c *ctx) typeKeyed() {
 // Rules is the G-rule catalogue.
 var Rules = []report.Rule{
 	{ID: "G27", Floor: 3, Props: []string{"C14"}, Text: "the sentinel types of output-less tasks and of predicates are keys of the same structural type map as user types: the two families differ in their field type, and each member is named after the family's counter, incremented unconditionally first"},
+	{ID: "G30", Floor: 2, Props: []string{"C13"}, Text: "after compiling a Flow/Parallel directive the file walker either descends into it or scans its arguments for nested directives and reports them: no directive call is left unprocessed silently"},
 	{ID: "G28", Floor: 2, Props: []string{"C14"}, Text: "memo / visited-set keys of the validators' graph searches are total over the nodes: the key is the node (or its structural type) itself, or a field that every constructor of the node sets"},
 	{ID: "G29", Floor: 4, Props: []string{"C14", "C13"}, Text: "every structural classification of a user-supplied go/types.Type (slice, map, function, pointer) is made on its underlying type, so named types of that kind are accepted like unnamed ones"},
 	{ID: "G26", Floor: 1, Props: []string{"C14", "C13"}, Text: "the depth-first cycle search writes its memo only after a node's subtree was searched, or else tests the path first with the memo's key"},
@@ -1042,7 +1043,7 @@ var Rules = []report.Rule{
 	{ID: "G1", Floor: 6, Props: []string{"C17"}, Text: "every range over a map / typeutil.Map.Keys() only fills sets, emits diagnostics, or builds slices that are sorted before any other use"},
 	{ID: "G2", Floor: 4, Props: []string{"C17"}, Text: "no clock/environment/random/introspection source is consulted except the random magic token, which is read only by the comment printer (source-map mode) and the comment replacer; no go/select in the generator"},
 	{ID: "G3", Floor: 2, Props: []string{"C17"}, Text: "package-level variables are never written after initialisation; Process builds a fresh compiler and generator per file"},
-	{ID: "G4", Floor: 7, Props: []string{"C16"}, Text: "file-system mutations are exactly os.WriteFile(g.outputPath) plus the debug temp dump on the parse-failure path; outputPath flows from Process's parameter, which main derives from -file OUT or genFilename"},
+	{ID: "G4", Floor: 7, Props: []string{"C16", "C17"}, Text: "file-system mutations are exactly os.WriteFile(g.outputPath) plus the debug temp dump on the parse-failure path; outputPath flows from Process's parameter, which main derives from -file OUT or genFilename"},
 	{ID: "G5", Floor: 3, Props: []string{"C13", "C14"}, Text: "generation is dominated by CompileFile() == nil, which returns all recorded diagnostics"},
 	{ID: "G6", Floor: 3, Props: []string{"C13"}, Text: "every output write is dominated by successful re-parse and format of the generated text"},
 	{ID: "G7", Floor: 1, Props: []string{"C13"}, Text: "go/constant accessors with panicking preconditions are dominated by a nil/kind test of the same value"},
@@ -1093,6 +1094,7 @@ func Run(repo *load.Repo, s *report.Sink) error {
 	c.cycleSearch()
 	c.sentinelFamilies()
 	c.memoKeys()
+	c.walkerCompleteness()
 	c.structuralAssertions()
 	return nil
 }
